@@ -137,3 +137,52 @@ Lemma amd64_pages_refuted_pinned :
   snd (install {| c_enc := enc_amd64 true; c_allp := false; c_alloc := alloc_jit false |}
         (kernel_fixed 0x7f0000100000) (os0 (fun _ => 0x90)) (0x7f0000000000 + 4093) (KExec 0x7f0000200000)) = RFault.
 Proof. vm_compute. reflexivity. Qed.
+
+(* ---- "the most recent installation for a function is the one in effect" (C02), x86-64 ----
+   What executing from the entry does depends only on the bytes of the entry slot and of the trampoline:
+   any later state whose memory agrees with the post-installation memory on those 24 bytes (every later
+   installation on OTHER functions does, by the write footprint C03 and the disjointness of fresh
+   mappings) still reaches the fake; a later installation on the SAME function is itself the latest. *)
+Theorem amd64_reach_stable oc allp al k s func fake s' g regs (m2:mem) : alloc_wf al ->
+  install {| c_enc := enc_amd64 oc; c_allp := allp; c_alloc := al |} k s func (KExec fake) = (s', ROk g) ->
+  slot_ok func -> slot_ok (g_jit g) -> disjoint12 func (g_jit g) -> 0 <= fake < W ->
+  (forall x, (func <= x < func + 12 \/ g_jit g <= x < g_jit g + 12) -> m2 x = o_mem s' x) ->
+  exists n regs', (2 <= n <= 4)%nat /\ same_except_rax regs regs' /\
+    xrun n {| rip := func; xr := regs; xm := m2 |} = Some {| rip := fake; xr := regs'; xm := m2 |}.
+Proof.
+  intros WF H [Hf1 Hf2] Hj Hd Hk Hag.
+  apply install_amd64_inv in H; auto. destruct H as (jit & code & bs & s1 & A & T & B & M & G & O).
+  subst g. cbn [g_jit] in *. destruct Hj as [Hj1 Hj2].
+  cbn [e_tramp enc_amd64] in T. destruct (branch oc jit fake) as [code'|] eqn:B2; cbn [enc_of_opt] in T; [|discriminate].
+  injection T as ->.
+  assert (L1 : (length bs <= 12)%nat) by (destruct (branch_len _ _ _ _ B) as [-> | ->]; lia).
+  assert (L2 : (length code <= 12)%nat) by (destruct (branch_len _ _ _ _ B2) as [-> | ->]; lia).
+  assert (R1 : read m2 func (length bs) = bs).
+  { transitivity (read (o_mem s') func (length bs)); [apply read_ext; intros x Hx; apply Hag; lia|]. rewrite M. apply read_write. }
+  assert (R2 : read m2 jit (length code) = code).
+  { transitivity (read (o_mem s') jit (length code)); [apply read_ext; intros x Hx; apply Hag; lia|].
+    rewrite M. rewrite read_write_other by (unfold disjoint12, zlen in *; lia). apply read_write. }
+  destruct (branch_reach oc m2 func jit regs bs Hf1 Hf2 ltac:(unfold W in *; lia) B R1) as (n1 & r1 & N1 & S1 & X1).
+  destruct (branch_reach oc m2 jit fake r1 code Hj1 Hj2 Hk B2 R2) as (n2 & r2 & N2 & S2 & X2).
+  exists (n1 + n2)%nat, r2. split; [lia|]. split.
+  - intros x Hx. rewrite S2, S1; auto.
+  - rewrite (xrun_app _ _ _ _ X1). exact X2.
+Qed.
+
+(* a later successful installation on a function whose entry slot and trampoline are disjoint from
+   [func]'s leaves those 24 bytes alone *)
+Lemma later_install_preserves oc allp al k s func2 kd s' g2 (lo hi:Z) : alloc_wf al ->
+  install {| c_enc := enc_amd64 oc; c_allp := allp; c_alloc := al |} k s func2 kd = (s', ROk g2) ->
+  (hi <= func2 \/ func2 + 12 <= lo) -> (hi <= g_jit g2 \/ g_jit g2 + 12 <= lo) ->
+  forall x, lo <= x < hi -> o_mem s' x = o_mem s x.
+Proof.
+  intros WF H D1 D2 x Hx. apply install_amd64_inv in H; auto. destruct H as (jit & code & bs & s1 & A & T & B & M & G & O).
+  subst g2. cbn [g_jit] in D2.
+  assert (L1 : (length bs <= 12)%nat) by (destruct (branch_len _ _ _ _ B) as [-> | ->]; lia).
+  assert (L2 : zlen code <= 12).
+  { pose proof (ewf_tramp_amd64 := I). cbn [e_tramp enc_amd64] in T. destruct kd as [fake|v].
+    - destruct (branch oc jit fake) as [c|] eqn:B2; cbn [enc_of_opt] in T; [|discriminate]. injection T as ->.
+      unfold zlen. destruct (branch_len _ _ _ _ B2) as [-> | ->]; lia.
+    - injection T as <-. cbn. lia. }
+  rewrite M. rewrite !write_out; auto; unfold zlen in *; lia.
+Qed.
